@@ -15,9 +15,13 @@ import (
 // text.
 //
 // A "trigger" is a path whose kind changes between the builds in a way that
-// the commit phase of the overlay bowl is known (by reading
-// /repo/pwr/bowl/bowl_overlay.go and by stand-alone reproductions) to handle
-// wrongly:
+// the commit phase of the overlay bowl was found (by this check, confirmed by
+// reading /repo/pwr/bowl/bowl_overlay.go and by stand-alone reproductions) to
+// handle wrongly. All of these classes have been repaired in /repo since (the
+// last five by "fix: overlay bowl: stage files renamed away from paths that
+// change kind ...", see known_findings.json: every entry is "fixed" and
+// suppresses nothing). The classes remain as names only: a recurrence is a
+// VIOLATION whose fingerprint says which of the old defects came back.
 //
 //	file->symlink:old-file-is-rename-source      ensureDirsAndSymlinks removes the old file before
 //	file->dir:old-file-renamed-into-it            applyTranspositions needs it as the source of a
